@@ -138,6 +138,14 @@ func (m MemShape) render(style, numStyle int) string {
 			terms = append(terms, fmt.Sprintf("%s*%d", names[m.Index], m.Scale))
 		}
 	}
+	if style == 4 && m.Base >= 0 && m.Index >= 0 && m.HasDisp && m.Disp != 0 {
+		// constant between the two register terms: [EBX-4+ESI*2]
+		d := spellInt(m.Disp, numStyle)
+		if m.Disp > 0 {
+			d = "+" + d
+		}
+		return "[" + terms[0] + d + "+" + terms[1] + "]"
+	}
 	plus := "+"
 	minus := "-"
 	if style == 3 {
